@@ -51,12 +51,12 @@ theorem addTokensFromDel_ok {v v' : Val} {a issued : Int} (hT : 0 < v.tokens) (h
     · cases h
 
 /-- one refresh step for an account that HAS NO DELEGATION RECORD and whose expected amount is `e > 0`, on a healthy
-validator (it has tokens and shares, the new totals stay in range): the refresh mints exactly `e`, offsets exactly
+validator (it has tokens and shares, the new totals stay in range and below `2⁶³` power units): the refresh mints exactly `e`, offsets exactly
 `e`, and re-creates the delegation with the shares `AddTokensFromDel` issues for `e` tokens. -/
 theorem refreshOneS_missing {s s' : SState} {key : AccKey} {e : Int} {v' : Val} {issued : Int}
     (hv : key.2 ∈ s.b.validators) (hn : s.k.dsh key = none) (he : expectedDelegation s.b key = .ok e) (hpos : 0 < e)
     (hT : 0 < (s.k.val key.2).tokens) (hadd : (s.k.val key.2).addTokensFromDel e = some (v', issued))
-    (hrange : chkDec issued = some issued)
+    (hrange : chkDec issued = some issued) (hpow : powerOverflows v'.tokens = false)
     (hc : refreshOneS s key = .ok s') :
     s'.k.dsh key = some issued ∧ s'.k.val key.2 = v' ∧ s'.b.supply = s.b.supply + e ∧ s'.b.offset = s.b.offset - e ∧
     (∀ k', k' ≠ key → s'.k.dsh k' = s.k.dsh k') := by
@@ -70,6 +70,7 @@ theorem refreshOneS_missing {s s' : SState} {key : AccKey} {e : Int} {v' : Val} 
     rw [if_neg (by omega)]
     rw [Int.sub_zero, hadd]
     dsimp only
+    rw [if_neg (by rw [hpow]; exact Bool.false_ne_true)]
     rw [hn]
     dsimp only
     have : Dec.add 0 issued = some issued := by unfold Dec.add; rw [Int.zero_add]; exact hrange
